@@ -107,6 +107,12 @@ MUTANTS = [
         ('a5/core/cell.py', "    point = _dodecahedron.inverse(pentagon.get_center(), cell[\"origin\"].id)\n    return to_lonlat(point)\n",
          "    point = _dodecahedron.inverse(pentagon.get_center(), cell[\"origin\"].id)\n    lon, lat = to_lonlat(point)\n    first = next(iter({'uv', 'vu', 'uw', 'wu', 'vw', 'wv'}))\n    return (lon + (0.0 if first < 'v' else 1e-13), lat)\n"),
     ], 600),
+    ('c17_control_idiomatic_with_lock', 'C17', 'silent', [
+        ('a5/math/vec3.py', "Vec3 = Union[List[float], Tuple[float, float, float]]\n",
+         "Vec3 = Union[List[float], Tuple[float, float, float]]\nimport threading\n_SHARED_CD = [0.0, 0.0, 0.0]\n_CD_LOCK = threading.Lock()\n"),
+        ('a5/math/vec3.py', "    crossCD = [0.0, 0.0, 0.0]\n    cross(crossCD, b, c)\n    # Return dot product a · (b × c)\n    return dot(a, crossCD)\n",
+         "    with _CD_LOCK:\n        crossCD = _SHARED_CD\n        cross(crossCD, b, c)\n        r = dot(a, crossCD)\n    return r\n"),
+    ], 3000),
 ]
 
 
